@@ -163,7 +163,9 @@ def trace_validate(wd, base, constants, traces, proj, name, act_var="last", extr
     with open(path, "w") as f:
         for t in tids:
             for line in traces[t]:
-                f.write(json.dumps({"tid": t, "a": line["a"], "proj": line["proj"]}) + "\n")
+                # chk = False: the state right after this step cannot be observed on the real objects (the step starts a
+                # synchronous loop whose iterations are the following lines); the action is matched, the state left to TLC
+                f.write(json.dumps({"tid": t, "a": line["a"], "proj": line["proj"], "chk": bool(line.get("chk", True))}) + "\n")
     mod = """---- MODULE %(name)s_T ----
 EXTENDS %(base)s, Json, IOUtils, TLCExt%(ext)s
 T_All == ndJsonDeserialize(IOEnv.TRACE_FILE)
@@ -175,7 +177,7 @@ T_Init == Init /\\ t_id \\in T_Tids /\\ t_l = 1
 T_Next == /\\ t_l <= Len(T_Of[t_id])
           /\\ Next
           /\\ %(act)s' = T_Of[t_id][t_l].a
-          /\\ T_Proj' = T_Of[t_id][t_l].proj
+          /\\ (T_Of[t_id][t_l].chk => T_Proj' = T_Of[t_id][t_l].proj)
           /\\ t_l' = t_l + 1 /\\ t_id' = t_id
 T_Spec == T_Init /\\ [][T_Next]_<<vars, t_id, t_l>>
 T_Mark == TLCSet(t_id, IF TLCGet(t_id) < t_l THEN t_l ELSE TLCGet(t_id))
